@@ -192,6 +192,9 @@ def reentrant_recur(B, cls):
             B.prove("self-removal-keeps-running", not [e for e in tr.kinds("CLOSE") if e[1] == target.name], top=True)
     if B.returned():
         B.prove("no-marker-left", len(nonmarker) == len(deeds), top=True)
+        if cls == DODOER:
+            # C05: a DoDoer reports done exactly when no deed is left, also counting deeds added during this pass
+            B.prove("result-is-deeds-empty", E.values_equal(ctx, B.env["result"], len(deeds) == 0), top=True, props=["C05", "C06"])
         # C02 precondition of a later exit(): what is left is in enter order (x0 entered last)
         rank = {d.name: i for i, d in enumerate(doers)}
         rank["x0"] = 99
@@ -207,6 +210,6 @@ def doist_reentrant(B):
     reentrant_recur(B, DOIST)
 
 
-@contract(DODOER + ".recur", props=["C06", "C01", "C02"], name=DODOER + ".recur[re-entrant extend/remove, bounded]")
+@contract(DODOER + ".recur", props=["C06", "C01", "C02", "C05"], name=DODOER + ".recur[re-entrant extend/remove, bounded]")
 def dodoer_reentrant(B):
     reentrant_recur(B, DODOER)
